@@ -240,7 +240,7 @@ package statsd
 // handleInstanceInfo: whatever was parked for the source leaves the parked state (handed to one
 // goroutine per kind); nothing else changes.
 //@ func (*CloudHandler).handleInstanceInfo
-//@   requires CloudInv(ch)
+//@   requires CloudInv(ch) && ch.handler != nil
 //@   ensures  CloudInv(ch) && !parked(ch, info.IP)
 //@   ensures  forall s gostatsd.Source :: s != info.IP ==> (s in ch.awaitingMetrics) == old(s in ch.awaitingMetrics) && (s in ch.awaitingEvents) == old(s in ch.awaitingEvents)
 //@   ensures  ch.statsEventItemsQueued == wrapu64(old(ch.statsEventItemsQueued) - old(len(ch.awaitingEvents[info.IP])))
